@@ -39,6 +39,7 @@ type PropMeta struct {
 	BoundedPkg    string            `json:"bounded_pkg"`    // package dir (relative to repo) of the bounded stand-in test
 	BoundedTest   string            `json:"bounded_test"`   // test function name (file: bounded/<id>/bounded_test.go)
 	ReplayHelpers []string          `json:"replay_helpers"` // extra files (relative to /verif/replay) injected beside the driver
+	ReplayRace    bool              `json:"replay_race"`    // build the driver with the race detector; a reported race is a witness
 	Audit         []string          `json:"audit"`          // thorough tier: tests of /verif/audit (bounded differential audit of assumed library contracts)
 }
 
@@ -271,7 +272,8 @@ func runProperty(p *Prog, id, tier string, cfg SolverCfg, verifDir, outDir strin
 		rec := map[string]interface{}{
 			"property": id, "obligation": v.Obligation, "function": v.Func, "class": v.Class, "what": v.Desc, "where": v.Pos,
 			"verifier_status": v.Status, "verifier_output": v.Output, "model": v.Model,
-			"replay": map[string]interface{}{"driver": meta.ReplayTest, "failing_input_found": v.Found, "input": v.Input, "output": truncate(replayOut, 4000)},
+			"replay": map[string]interface{}{"driver": meta.ReplayTest, "failing_input_found": v.Found, "input": v.Input, "what": grepLine(replayOut, "REPLAY-WHAT "),
+				"search": grepLine(replayOut, "REPLAY-STATS "), "output": truncate(lastLines(replayOut, 30), 4000)},
 		}
 		data, _ := json.MarshalIndent(rec, "", " ")
 		os.WriteFile(rp, data, 0o644)
@@ -281,7 +283,36 @@ func runProperty(p *Prog, id, tier string, cfg SolverCfg, verifDir, outDir strin
 			fmt.Printf("VIOLATION property=%s replay=%s no-failing-input-found\n", id, rp)
 		}
 		fmt.Printf("  obligation %s [%s] %s (%s)\n", v.Obligation, v.Status, v.Desc, v.Pos)
+		if v.Found {
+			fmt.Printf("  failing input on the real code (%s): %s\n    %s\n", meta.ReplayTest, truncate(v.Input, 300), truncate(grepLine(replayOut, "REPLAY-WHAT "), 300))
+		}
 		exit = 1
+	}
+	// thorough tier: the witness search also runs when every obligation is discharged - a bounded cross-check of the
+	// contracts against the statement on the real code; a failing input is a violation with a replayable input
+	witnessInfo := map[string]interface{}{"driver": meta.ReplayTest, "ran": replayDone}
+	if meta.ReplayTest != "" && !replayDone && tier == "thorough" {
+		replayDone = true
+		replayFound, replayInput, replayOut = runReplay(p.repo, verifDir, id, meta, seed, "", "")
+		witnessInfo["ran"] = true
+		if replayFound {
+			nViol++
+			rp := filepath.Join(outDir, "replays", id, "witness_search.json")
+			rec := map[string]interface{}{"property": id, "obligation": "witness search " + meta.ReplayTest + " (every deductive obligation is discharged; the search reads the statement directly)",
+				"function": meta.ReplayTest, "class": "witness",
+				"what":   grepLine(replayOut, "REPLAY-WHAT "),
+				"replay": map[string]interface{}{"driver": meta.ReplayTest, "failing_input_found": true, "input": replayInput, "what": grepLine(replayOut, "REPLAY-WHAT "), "search": grepLine(replayOut, "REPLAY-STATS ")}}
+			data, _ := json.MarshalIndent(rec, "", " ")
+			os.WriteFile(rp, data, 0o644)
+			fmt.Printf("VIOLATION property=%s replay=%s\n  witness search: %s\n    %s\n", id, rp, truncate(replayInput, 300), truncate(grepLine(replayOut, "REPLAY-WHAT "), 300))
+			exit = 1
+		} else if !strings.Contains(replayOut, "REPLAY-STATS") {
+			broken = append(broken, "the witness-search driver did not finish: "+truncate(lastLines(replayOut, 12), 800))
+		}
+	}
+	if replayDone {
+		witnessInfo["found"] = replayFound
+		witnessInfo["search"] = grepLine(replayOut, "REPLAY-STATS ")
 	}
 	// bounded stand-in (labelled bounded, never counted as proof)
 	var boundedStats string
@@ -370,6 +401,7 @@ func runProperty(p *Prog, id, tier string, cfg SolverCfg, verifDir, outDir strin
 		"known_findings_printed":               knownPrinted,
 		"bounded_parts":                        meta.Bounded,
 		"bounded_stats":                        boundedStats,
+		"witness_search_bounded":               witnessInfo,
 		"assumption_audit_bounded":             auditStats,
 		"frame_audited_functions":              frameAudited,
 		"explanation":                          meta.Explanation,
@@ -452,10 +484,14 @@ func runReplay(repo, verifDir, id string, meta PropMeta, seed int, model, input 
 	os.WriteFile(ovPath, ovData, 0o644)
 	ctx, cancel := context.WithTimeout(context.Background(), 180*time.Second)
 	defer cancel()
-	cmd := exec.CommandContext(ctx, "go", "test", "-overlay", ovPath, "-vet=off", "-count=1", "-v", "-timeout", "150s", "-run", "^"+meta.ReplayTest+"$", "./"+meta.ReplayPkg)
+	args := []string{"test", "-overlay", ovPath, "-vet=off", "-count=1", "-v", "-timeout", "150s", "-run", "^" + meta.ReplayTest + "$", "./" + meta.ReplayPkg}
+	if meta.ReplayRace {
+		args = append(args[:1], append([]string{"-race"}, args[1:]...)...)
+	}
+	cmd := exec.CommandContext(ctx, "go", args...)
 	cmd.Dir = repo
 	cmd.Env = append(os.Environ(), "GOFLAGS=-mod=mod", "GOPROXY=off", "GOSUMDB=off", "GOTOOLCHAIN=local",
-		"VERIF_SEED="+strconv.Itoa(seed), "VERIF_MODEL="+model, "VERIF_REPLAY_INPUT="+input, "GOCACHE="+filepath.Join(os.TempDir(), "govc-gocache"))
+		"VERIF_RACE="+map[bool]string{true: "1", false: ""}[meta.ReplayRace], "VERIF_SEED="+strconv.Itoa(seed), "VERIF_MODEL="+model, "VERIF_REPLAY_INPUT="+input, "GOCACHE="+filepath.Join(os.TempDir(), "govc-gocache"))
 	var buf bytes.Buffer
 	cmd.Stdout = &buf
 	cmd.Stderr = &buf
@@ -465,6 +501,9 @@ func runReplay(repo, verifDir, id string, meta PropMeta, seed int, model, input 
 		if j := strings.Index(line, "REPLAY-FAIL "); j >= 0 {
 			return true, strings.TrimSpace(line[j+len("REPLAY-FAIL "):]), out
 		}
+	}
+	if meta.ReplayRace && strings.Contains(out, "WARNING: DATA RACE") {
+		return true, `{"scenario":"data race reported by the race detector"}`, out
 	}
 	return false, "", out
 }
@@ -572,4 +611,13 @@ func runAudit(verifDir string, tests []string) (stats []string, out string, ok b
 		}
 	}
 	return stats, out, err == nil && len(stats) > 0
+}
+
+func grepLine(out, prefix string) string {
+	for _, line := range strings.Split(out, "\n") {
+		if j := strings.Index(line, prefix); j >= 0 {
+			return strings.TrimSpace(line[j+len(prefix):])
+		}
+	}
+	return ""
 }
